@@ -259,7 +259,11 @@ func (mw *msgWriter) writePreformattedGenHeader(msg *Msg) {
 func (mw *msgWriter) startMP(mimeType MIMEType, boundary string) string {
 	multiPartWriter := multipart.NewWriter(mw)
 	if boundary != "" {
-		mw.err = multiPartWriter.SetBoundary(boundary)
+		// do not overwrite an error of an earlier write (e. g. of the header block) with the result
+		// of setting the boundary
+		if err := multiPartWriter.SetBoundary(boundary); err != nil && mw.err == nil {
+			mw.err = err
+		}
 	}
 
 	// A boundary may hold characters that are not allowed in an unquoted parameter value (RFC 2045,
